@@ -38,6 +38,7 @@ def run(ctx):
     rule_ptr(ctx, F)
     rule_cmp(ctx, F)
     rule_sig(ctx, F)
+    rule_order(ctx, F)
 
 
 SEGS = [("new::base::name::absolute::parse_segment", "size", +1), ("new::base::name::reversed::parse_segment", "offset", -1)]
@@ -275,6 +276,20 @@ def rule_cmp(ctx, F):
             kinds = {("contents" if deep_strip(s[3][0]) == ("arg", 2) else "name") for s in lens}
             if has_add and kinds == {"contents", "name"}:
                 okst = True
+        # stamp of a newly registered entry = contents.len() alone: strictly below the stamp its parent just
+        # received (contents.len() + a non-empty remainder), so the child is evicted first
+        fresh = [(sbi, deep_strip(b.term_of_rvalue(sst[2]))) for sbi, sst in stamps if sbi not in cyc and sbi == bi]
+        if not fresh:
+            fresh = [(sbi, deep_strip(b.term_of_rvalue(sst[2]))) for sbi, sst in stamps if sbi not in cyc]
+        okf = bool(fresh)
+        for sbi, v in fresh:
+            lv = _lin2(b, v)
+            if lv is None or {k: c for k, c in lv.items() if c} != {"C": 1}:
+                okf = False
+        ctx.ob(R, b, "%s: a new entry is stamped contents.len() (below its parent's stamp)" % fn, okf,
+               "the stamp of a newly registered entry must be contents.len(): stamped like (or above) the parent it was "
+               "compressed against, parent and child tie and the parent can be evicted first — a later name is then "
+               "compressed against a slot that no longer holds the parent and resolves to a different name")
         ctx.ob(R, b, "%s: last-use stamp = contents.len() + remaining name length" % fn, okst and bool(used),
                "the stamp of an entry used for compression must grow with the length of the name still to be written, "
                "so that a parent is always stamped later than its children and evicted after them")
@@ -312,6 +327,8 @@ def rule_sig(ctx, F):
         "new::base::message::SectionCounts": (["questions", "answers", "authorities", "additionals"], "U16"),
         "new::base::question::Question": (["qname", "qtype", "qclass"], None),
         "new::base::record::Record": (["rname", "rtype", "rclass", "ttl", "rdata"], None),
+        # OPT pseudo-record (RFC 6891 6.1.3): CLASS = payload size, TTL = ext-rcode, version, flags
+        "new::edns::EdnsRecord": (["max_udp_payload", "ext_rcode", "version", "flags", "data"], None),
     }
     for adt, (fields, ty) in want.items():
         a = F.adts.get(adt)
@@ -334,3 +351,52 @@ def rule_sig(ctx, F):
         ok = all(off in offs.get(nm, []) for nm, off in (("qdcount", 0), ("ancount", 2), ("nscount", 4), ("arcount", 6)))
         ctx.ob(R, "base::header::HeaderCounts", "established count accessors use offsets 0,2,4,6 (same order as SectionCounts)", ok,
                "offset constants found: %s" % offs)
+
+
+# ---------------------------------------------------------------------------
+# hand-written builders write the fields in declaration order (which is what
+# the derive-based parsers read)
+# ---------------------------------------------------------------------------
+
+def rule_order(ctx, F):
+    R = "C19.order"
+    ctx.floor(R, 18)
+    n = 0
+    for im in F.impls:
+        tr = im["trait"] or ""
+        if not re.search(r"^new::.*::(BuildBytes|BuildInMessage)$", tr):
+            continue
+        adt = im["self_adt"]
+        if not adt or adt not in F.adts or not adt.startswith("new::"):
+            continue
+        a = F.adts[adt]
+        if len(a["variants"]) != 1:
+            continue
+        fields = [fd["name"] for fd in a["variants"][0]["fields"]]
+        for it in im["items"]:
+            if it["name"] not in ("build_bytes", "build_in_message"):
+                continue
+            b = F.bodies.get(it["path"])
+            if b is None:
+                continue
+            order = []
+            blocks = {}
+            for bi, t in b.calls():
+                if re.search(r"::(build_bytes|build_in_message)$", t["fn"] or "") and t["args"]:
+                    x = deep_strip(b.term_of_operand(t["args"][0]))
+                    while x[0] == "field" and deep_strip(x[1]) != ("arg", 1):
+                        x = deep_strip(x[1])
+                    if x[0] == "field" and deep_strip(x[1]) == ("arg", 1) and str(x[2]) in fields and str(x[2]) not in order:
+                        order.append(str(x[2]))
+                        blocks[str(x[2])] = bi
+            if len(order) < 2:
+                continue
+            n += 1
+            # execution order = dominance order of the first write of each field
+            order.sort(key=lambda fd: sum(1 for o in order if o != fd and b.dominates(blocks[o], blocks[fd])))
+            idx = [fields.index(fd) for fd in order]
+            ctx.ob(R, b, "fields written in declaration order", idx == sorted(idx),
+                   "%s::%s writes the fields in the order %s but the struct declares %s: the parsers of the new codec "
+                   "(derive-based, declaration order) and the established codec read the octets in the declared order"
+                   % (adt.split("::")[-1], it["name"], order, fields), nontrivial=len(order) > 2)
+    ctx.call_sites += n
